@@ -23,8 +23,8 @@ def prog_job(args):
         offs = [Signal(unsigned(rng.randint(0, 3)), name=f"o{k}") for k in range(rng.randint(1, 2))]
         inputs = inputs + offs
         mk = lambda pre, k: Signal(sh := gen_expr.rand_shape(rng, 6), name=f"{pre}{k}", init=gen_expr.rand_value(rng, sh))
-        combT = [mk("c", k) for k in range(rng.randint(1, 3))]
-        syncT = [mk("s", k) for k in range(rng.randint(1, 3))]
+        combT = [mk("c", k) for k in range(rng.randint(1, 4))]
+        syncT = [mk("s", k) for k in range(rng.randint(1, 4))]
         allsigs = inputs + combT + syncT
         offcands = [s for s in inputs if not s.shape().signed and len(s) <= 3]
         g_comb = gen_expr.Gen(rng, inputs + syncT, maxw=6)
